@@ -21,7 +21,7 @@ def _scene_list(ctx):
 
 def gen_cases(ctx):
     rng = random.Random(ctx.seed)
-    Ts = [1, 2, 5, 8] if ctx.quick else list(range(1, 17))
+    Ts = [1, 2, 5, 8] if ctx.quick else list(range(1, 13))
     scenes = _scene_list(ctx)
     for i, T in enumerate(Ts):
         names = [scenes[i % len(scenes)]] if ctx.quick else scenes
@@ -29,7 +29,7 @@ def gen_cases(ctx):
             strat = [("none", 0, 0), ("checkpointed", 0, 1), ("checkpointed", 0, T), ("reversible", 0, 0), ("reversible", T - 1, 0)]
             if T >= 3:
                 strat += [("checkpointed", 0, 3), ("reversible", rng.randint(1, T - 2), 0)]
-            if not ctx.quick:
+            if not ctx.quick and T <= 9:
                 strat += [("reversible", k, 0) for k in range(1, T - 1)]
                 strat = sorted(set(strat))
             yield {"id": f"{name}-T{T}", "scene": dict(sc, T=T), "strategies": strat}
